@@ -428,8 +428,8 @@ class IndividualParameters:
 
         final_names = {}
         for name in df_names:
-            split = name.split("_")[0]
-            if split == name:  # e.g tau, xi, ...
+            split, _, suffix = name.rpartition("_")
+            if not suffix.isdigit() or split == "":  # e.g tau, xi, my_param, ...
                 final_names[name] = name
             else:  # e.g sources_0 --> sources
                 if split not in final_names:
